@@ -669,6 +669,11 @@ class NetworkXPropertyGraph(ABCPropertyGraph, NetworkXMixin):
 
         # merge the nodes in situ
         nx.contracted_nodes(self.storage.get_graph(self.graph_id), real_node, real_other_node, copy=False)
+        # an edge both nodes had to the same neighbor is recorded by contracted_nodes() in a 'contraction'
+        # attribute of the surviving edge (a dict keyed by internal ids); like the node attribute removed
+        # below it is not part of the model
+        for _, _, edge_props in self.storage.get_graph(self.graph_id).edges(real_node, data=True):
+            edge_props.pop('contraction', None)
 
         # deal with properties
         # remove all properties, including 'contracted' new property
